@@ -93,18 +93,37 @@ fn from_set_checks(ctx: &mut Ctx, set: &[(B32, Vec<u8>)], what: &str) {
             None => ctx.oracle_fail(&format!("panic-{name}"), &format!("fromset {arg}"), "panicked or failed"),
         }
     };
-    match &fs {
-        Ok(Ok(t)) => { out.push(format!("{} {}", hex(&t.root()), store_summary(t.storage()))); check(ctx, "from_set", Some(t.root())); }
+    let mut built: Option<Tree> = None;
+    match fs {
+        Ok(Ok(t)) => { out.push(format!("{} {}", hex(&t.root()), store_summary(t.storage()))); check(ctx, "from_set", Some(t.root())); built = Some(t); }
         _ => { out.push("panic".into()); check(ctx, "from_set", None); }
     }
     match &rfs { Ok(r) => { out.push(hex(r)); check(ctx, "root_from_set", Some(*r)); } Err(_) => { out.push("panic".into()); check(ctx, "root_from_set", None); } }
     match &nfs {
-        Ok((r, nodes)) => { out.push(format!("{} {} {}", hex(r), nodes.len(), entries_digest(nodes.iter().map(|(k, p)| (k, p))))); check(ctx, "nodes_from_set", Some(*r)); }
+        Ok((r, nodes)) => {
+            // the order in which from_set emits nodes is not an observable of the property: sorted, distinct
+            let set: BTreeMap<B32, fuel_merkle::sparse::Primitive> = nodes.iter().map(|(k, p)| (*k, *p)).collect();
+            out.push(format!("{} {} {}", hex(r), set.len(), entries_digest(set.iter())));
+            check(ctx, "nodes_from_set", Some(*r));
+        }
         Err(_) => { out.push("panic".into()); check(ctx, "nodes_from_set", None); }
     }
     match &mem { Ok(r) => { out.push(hex(r)); check(ctx, "in_memory-from_set", Some(*r)); } Err(_) => { out.push("panic".into()); check(ctx, "in_memory-from_set", None); } }
     ctx.count(what);
     ctx.emit(&format!("fromset {arg}"), &out.join(" "));
+    // "Leaves can be appended to the returned tree using update": continue the history on the built tree
+    if let Some(tree) = built {
+        let mut r = Run { tree, mem: in_memory::MerkleTree::from_set(set.iter().map(|(k, v)| (tkey(k), v.clone()))), map: m, trace: vec![format!("fromset {arg}")] };
+        let pool: Vec<B32> = if set.is_empty() { vec![ZERO] } else { set.iter().map(|(k, _)| *k).collect() };
+        for _ in 0..3 {
+            let op = if ctx.rng.chance(1, 2) { Op::Del(*ctx.rng.pick(&pool)) } else {
+                let base = *ctx.rng.pick(&pool); let p = *ctx.rng.pick(PREFIXES); let tail = ctx.rng.below(4);
+                let k = if ctx.rng.chance(1, 3) { base } else { key_with_prefix(&mut ctx.rng, &base, p, tail) };
+                Op::Ins(k, value(&mut ctx.rng)) };
+            apply(ctx, &mut r, &op, true);
+            ctx.count("op.after-from_set");
+        }
+    }
 }
 
 fn finish(ctx: &mut Ctx, r: &mut Run) {
